@@ -99,6 +99,9 @@ def pmap(fn, items, workers=None, chunk=None, hang_s=600, budget_s=None):
     a HarnessError, never a pass.  If budget_s elapses, remaining chunks are
     skipped (results None) - callers must count what actually ran."""
     items = list(items)
+    # thorough runs are long and often share the machine with other work: a generous limit still turns a real hang into
+    # a harness error, without mistaking a slow, loaded machine for one
+    hang_s = int(hang_s * float(os.environ.get("VERIF_HANG_FACTOR", "1")))
     workers = workers or nworkers()
     if workers <= 1 or len(items) <= 1:
         return _call(fn, items, hang_s)
@@ -274,6 +277,8 @@ def parse_args(argv):
     a = ap.parse_args(argv)
     if a.seed is None:
         a.seed = int(os.environ.get("VERIF_SEED", "0"))
+    if a.tier == "thorough":
+        os.environ.setdefault("VERIF_HANG_FACTOR", "4")
     return a
 
 
